@@ -106,8 +106,19 @@ func addrInt(r *mon.Rng, allowAnycast, allowVar bool) []bool {
 // currencies$_ grams:Grams other:ExtraCurrencyCollection = CurrencyCollection;
 // extra_currencies$_ dict:(HashmapE 32 (VarUInteger 32)) = ExtraCurrencyCollection;
 func currencies(r *mon.Rng, maxBytes int) ([]bool, []*cell.Cell) {
+	return currenciesF(r, maxBytes, -1)
+}
+
+// extra: 1 = with a non-empty extra-currency dictionary (one more reference), 0 = without, -1 = drawn
+func currenciesF(r *mon.Rng, maxBytes int, extra int) ([]bool, []*cell.Cell) {
 	g := grams(randBig(r, maxBytes))
-	if r.Chance(1, 6) {
+	if extra < 0 {
+		extra = 0
+		if r.Chance(1, 6) {
+			extra = 1
+		}
+	}
+	if extra == 1 {
 		n := r.Range(1, 3)
 		keys := map[uint64]bool{}
 		for len(keys) < n {
@@ -430,11 +441,12 @@ func anyMessage(r *mon.Rng) (*msgSpec, *cell.Cell) {
 // ---------------------------------------------------------------- transactions
 
 type txSpec struct {
-	acct [32]byte
-	lt   uint64
-	in   *cell.Cell
-	outs map[uint64]*cell.Cell
-	c    *cell.Cell
+	shape string
+	acct  [32]byte
+	lt    uint64
+	in    *cell.Cell
+	outs  map[uint64]*cell.Cell
+	c     *cell.Cell
 }
 
 // transaction$0111 account_addr:bits256 lt:uint64 prev_trans_hash:bits256 prev_trans_lt:uint64 now:uint32
@@ -443,16 +455,38 @@ type txSpec struct {
 //	^[ in_msg:(Maybe ^(Message Any)) out_msgs:(HashmapE 15 ^(Message Any)) ]
 //	total_fees:CurrencyCollection state_update:^(HASH_UPDATE Account) description:^TransactionDescr = Transaction;
 func genTx(r *mon.Rng, pick func() *cell.Cell) *txSpec {
+	return genTxF(r, pick, txForce{-1, -1, -1, -1})
+}
+
+// txForce fixes the optional parts of a transaction (-1 = drawn): in_msg present, number of out_msgs,
+// extra currencies in total_fees (its dictionary root is one more reference of the transaction cell,
+// between ^[in_msg out_msgs] and state_update), constructor of the description.
+type txForce struct {
+	in, nout, extra, descr int
+}
+
+var descrNames = []string{"trans_storage", "trans_ord", "trans_tick_tock"}
+
+func genTxF(r *mon.Rng, pick func() *cell.Cell, f txForce) *txSpec {
 	t := &txSpec{acct: rand32(r), lt: r.Uint64(), outs: map[uint64]*cell.Cell{}}
 	var mbitsv []bool
 	var mrefs []*cell.Cell
-	if r.Chance(3, 4) {
+	if f.in < 0 {
+		f.in = 0
+		if r.Chance(3, 4) {
+			f.in = 1
+		}
+	}
+	if f.in == 1 {
 		t.in = pick()
 		mbitsv, mrefs = bit(true), []*cell.Cell{t.in}
 	} else {
 		mbitsv = bit(false)
 	}
-	nout := mon.Pick(r, []int{0, 0, 1, 2, 3, 5})
+	nout := f.nout
+	if nout < 0 {
+		nout = mon.Pick(r, []int{0, 0, 1, 2, 3, 5})
+	}
 	var keys []uint64
 	var cells []*cell.Cell
 	for len(keys) < nout {
@@ -469,19 +503,31 @@ func genTx(r *mon.Rng, pick func() *cell.Cell) *txSpec {
 	}
 	db, dr := dictOfRefs(keys, 15, cells)
 	msgs := cell.New(cat(mbitsv, db), false, append(mrefs, dr...)...)
-	fees, feeRefs := currencies(r, 8)
+	fees, feeRefs := currenciesF(r, 8, f.extra)
 	// update_hashes#72 {X:Type} old_hash:bits256 new_hash:bits256 = HASH_UPDATE X;
 	upd := cell.New(cat(u(0x72, 8), r.Bits(512)), false)
 	var descr *cell.Cell
-	if r.Bool() {
-		// trans_storage$0001 storage_ph:TrStoragePhase = TransactionDescr;
-		// tr_phase_storage$_ storage_fees_collected:Grams storage_fees_due:(Maybe Grams) status_change:AccStatusChange
+	if f.descr < 0 {
+		f.descr = mon.Pick(r, []int{0, 0, 0, 1, 1, 1, 2})
+	}
+	// tr_phase_storage$_ storage_fees_collected:Grams storage_fees_due:(Maybe Grams) status_change:AccStatusChange
+	storagePh := func() []bool {
 		due := bit(false)
 		if r.Bool() {
 			due = cat(bit(true), grams(randBig(r, 5)))
 		}
-		descr = cell.New(cat(u(1, 4), grams(randBig(r, 5)), due, mon.Pick(r, [][]bool{{false}, {true, false}, {true, true}})), false)
-	} else {
+		return cat(grams(randBig(r, 5)), due, mon.Pick(r, [][]bool{{false}, {true, false}, {true, true}}))
+	}
+	t.shape = fmt.Sprintf("in_msg=%v/out_msgs=%d/extra-currencies-in-total_fees=%v/%s", f.in == 1, nout, len(feeRefs) > 0, descrNames[f.descr])
+	switch f.descr {
+	case 0:
+		// trans_storage$0001 storage_ph:TrStoragePhase = TransactionDescr;
+		descr = cell.New(cat(u(1, 4), storagePh()), false)
+	case 2:
+		// trans_tick_tock$001 is_tock:Bool storage_ph:TrStoragePhase compute_ph:TrComputePhase
+		//   action:(Maybe ^TrActionPhase) aborted:Bool destroyed:Bool = TransactionDescr;
+		descr = cell.New(cat(u(1, 3), bit(r.Bool()), storagePh(), bit(false), u(uint64(r.Intn(3)), 2), bit(false), bit(r.Bool()), bit(r.Bool())), false)
+	default:
 		// trans_ord$0000 credit_first:Bool storage_ph:(Maybe TrStoragePhase) credit_ph:(Maybe TrCreditPhase)
 		//   compute_ph:TrComputePhase action:(Maybe ^TrActionPhase) aborted:Bool bounce:(Maybe TrBouncePhase) destroyed:Bool
 		// tr_phase_compute_skipped$0 reason:ComputeSkipReason;  cskip_no_state$00 / cskip_bad_state$01 / cskip_no_gas$10
@@ -857,6 +903,7 @@ func compareTx(t *tlb.Transaction, spec *txSpec, how, where string, wit map[stri
 	}
 	R.Eval("t/" + how + "/" + where + "/" + string(want[:8]))
 	R.Seen("transaction_places", where)
+	R.Seen("transaction_shapes", spec.shape)
 	if [32]byte(got) != want {
 		R.Violation("hash-mismatch@Transaction.Hash/"+how+"/"+where, witnessOf(wit, "got", h32(got), "want", h32(want)))
 		return
@@ -943,7 +990,7 @@ func sectionCarriers() {
 			}
 			if err != nil {
 				// decoding the reference encoding is C03/C04's business; here it only means nothing was observed
-				R.Inconclusive("tongo rejects a reference-built carrier (" + how + "): " + mon.Trunc(err.Error(), 80))
+				rejected("carrier", how, err, wit)
 				continue
 			}
 			d := collect(&v)
@@ -994,6 +1041,74 @@ func sectionCarriers() {
 	}
 }
 
+// ---------------------------------------------------------------- decoder variants
+
+// The same cell must give the same hashes whichever way the decoder was built.
+var hows4 = []string{"plain", "hasher", "hasher+debug", "hasher+library-resolver"}
+
+var (
+	libMu sync.Mutex
+	libs  = map[tlb.Bits256]*tboc.Cell{} // what the library resolver knows
+)
+
+func registerLibrary(content *cell.Cell) {
+	t, err := bridge.ToTongoBuilt(content)
+	if err != nil {
+		R.HarnessError("library content: %v", err)
+		return
+	}
+	// known under the hash the library cell names and under the hash of the library cell itself
+	// (tlb/decoder.go asks the resolver for c.Hash256() of the library cell): what key a resolver
+	// is asked for is not C16's subject
+	libMu.Lock()
+	libs[tlb.Bits256(content.Hash())] = t
+	libs[tlb.Bits256(cell.NewLibrary(content.Hash()).Hash())] = t
+	libMu.Unlock()
+}
+
+func resolveLibrary(h tlb.Bits256) (*tboc.Cell, error) {
+	libMu.Lock()
+	defer libMu.Unlock()
+	if c, ok := libs[h]; ok {
+		c.ResetCounters()
+		return c, nil
+	}
+	return nil, fmt.Errorf("scripted resolver: unknown library")
+}
+
+// unmarshalHow decodes with the decoder variant named by how (anything not listed: NewDecoder()).
+func unmarshalHow(how string, t *tboc.Cell, o any) error {
+	switch how {
+	case "plain":
+		return tlb.Unmarshal(t, o)
+	case "hasher+debug":
+		return tlb.NewDecoder().WithDebug().Unmarshal(t, o)
+	case "hasher+library-resolver":
+		return tlb.NewDecoder().WithLibraryResolver(resolveLibrary).Unmarshal(t, o)
+	}
+	return tlb.NewDecoder().Unmarshal(t, o)
+}
+
+func errClass(err error) string {
+	var sb strings.Builder
+	for _, c := range fmt.Sprint(err) {
+		if (c >= 'a' && c <= 'z') || (c >= 'A' && c <= 'Z') || c == ' ' {
+			sb.WriteRune(c)
+		}
+		if sb.Len() >= 48 {
+			break
+		}
+	}
+	return strings.TrimSpace(sb.String())
+}
+
+// rejected: a record written by the reference from block.tlb is a valid one; when the decoder refuses
+// it, no hash at all is reported for it (and none for the block around it).
+func rejected(what, how string, err error, wit map[string]any) {
+	R.Eval("")
+	R.Violation("no-hash@valid-"+what+"-rejected/"+how+"/"+errClass(err), witnessOf(wit, "err", fmt.Sprint(err)))
+}
+
 // ---------------------------------------------------------------- direct decoding, every shape, re-decoding
 
 type refCarrier struct {
@@ -1017,11 +1132,7 @@ func decodeMessage(c *cell.Cell, how string, viaBoc, wrapped bool, r *mon.Rng) (
 		if wrapped {
 			target = &w
 		}
-		if how == "plain" {
-			err = tlb.Unmarshal(t, target)
-		} else {
-			err = tlb.NewDecoder().Unmarshal(t, target)
-		}
+		err = unmarshalHow(how, t, target)
 	})
 	if wrapped {
 		return &w.M, err, pn
@@ -1040,8 +1151,8 @@ func sectionShapes() {
 					if c == nil {
 						return
 					}
-					how := []string{"plain", "hasher"}[k%2]
-					wrapped := k%4 >= 2
+					how := hows4[k%4]
+					wrapped := (k/4)%2 == 1
 					where := "root"
 					if wrapped {
 						where = "^"
@@ -1053,9 +1164,10 @@ func sectionShapes() {
 						continue
 					}
 					if err != nil {
-						R.Inconclusive("tongo rejects a reference-built message: " + mon.Trunc(err.Error(), 80))
+						rejected("message", how, err, wit)
 						continue
 					}
+					R.Seen("decoder_variants", how)
 					compareMessage(m, c, spec, how, where, wit)
 				}
 			}
@@ -1177,7 +1289,7 @@ func sectionReuse() {
 				break
 			}
 			if err != nil {
-				R.Inconclusive("tongo rejects a reference-built transaction: " + mon.Trunc(err.Error(), 80))
+				rejected("transaction", how, err, witnessOf(wit, "shape", ts.shape))
 				ok = false
 				break
 			}
@@ -1299,14 +1411,57 @@ func sectionTransactions() {
 				}
 			})
 			if pn != nil || err != nil {
-				if round == 0 {
-					R.Inconclusive("tongo rejects a reference-built transaction")
+				if round == 0 && pn == nil {
+					rejected("transaction", how, err, map[string]any{"case": k, "shape": ts.shape})
+				} else if round == 0 {
+					R.Violation("panic@"+pn.Site+"/decode-transaction/"+how, map[string]any{"panic": pn.Value, "shape": ts.shape})
 				} else {
 					R.Violation("error@re-decoding-the-same-cell/Transaction/"+how, map[string]any{"round": round, "err": fmt.Sprint(err, pn)})
 				}
 				break
 			}
 			compareTx(&tx, ts, how, fmt.Sprintf("root/decoded-again(%d)", round), map[string]any{"case": k, "round": round})
+		}
+	}
+	// (3) every combination of the optional parts: in_msg absent/present, out_msgs empty/one/several,
+	// total_fees without/with extra currencies (one more reference in the middle of the transaction
+	// cell), each description constructor the generator writes. A valid transaction decodes and
+	// reports the hash of its cell.
+	sweep := 0
+	for rep := 0; rep < R.N(2, 25); rep++ {
+		for _, in := range []int{0, 1} {
+			for _, nout := range []int{0, 1, 3} {
+				for _, extra := range []int{0, 1} {
+					for descr := range descrNames {
+						sweep++
+						rng := R.Rng("tx-shapes", sweep)
+						ts := genTxF(rng, func() *cell.Cell {
+							_, c := anyMessage(rng)
+							if c == nil {
+								return cell.New(nil, false)
+							}
+							return c
+						}, txForce{in: in, nout: nout, extra: extra, descr: descr})
+						how := hows4[sweep%4]
+						t, err := deliver(ts.c, sweep%3 != 0, rng)
+						if err != nil {
+							R.HarnessError("deliver: %v", err)
+							return
+						}
+						var tx tlb.Transaction
+						wit := map[string]any{"shape": ts.shape, "decoder": how}
+						if pn := mon.Guard(func() { err = unmarshalHow(how, t, &tx) }); pn != nil {
+							R.Violation("panic@"+pn.Site+"/decode-transaction/"+how, witnessOf(wit, "panic", pn.Value))
+							continue
+						}
+						if err != nil {
+							rejected("transaction", how, err, wit)
+							continue
+						}
+						compareTx(&tx, ts, how, "root", wit)
+					}
+				}
+			}
 		}
 	}
 	// (2) a transaction as it is found in a Merkle proof: below it a pruned branch (level 1), a library
@@ -1370,7 +1525,7 @@ func sectionTransactions() {
 				continue
 			}
 			if err != nil {
-				R.Inconclusive("tongo rejects a transaction with a " + below.name + " below it")
+				rejected("transaction", how, err, map[string]any{"case": k, "shape": ts.shape, "below_it": below.name})
 				continue
 			}
 			R.Seen("transactions_with_exotic_cells_below", fmt.Sprintf("%s (level mask %d)", below.name, ts.c.Mask()))
@@ -1490,7 +1645,7 @@ func sectionTxSizes() {
 					continue
 				}
 				if err != nil {
-					R.Inconclusive("tongo rejects a reference-built transaction: " + mon.Trunc(err.Error(), 80))
+					rejected("transaction", how, err, map[string]any{"distinct_cells": n, "shape": ts.shape})
 					continue
 				}
 				R.Seen("transaction_sizes(distinct cells)", fmt.Sprint(n))
@@ -1603,7 +1758,7 @@ func concurrentWorker(w *mon.Worker) {
 					continue
 				}
 				if err != nil {
-					w.Inconclusive("tongo rejects a reference-built record (concurrent section)")
+					w.Violation("no-hash@valid-record-rejected/concurrent-decoding/"+how+"/"+errClass(err), map[string]any{"err": fmt.Sprint(err), "shape": cc.shape})
 					continue
 				}
 				w.Eval("conc/" + how + "/" + string(cc.want[:8]))
@@ -1651,7 +1806,7 @@ func normHash(c *cell.Cell, how string, viaBoc, wrapped bool, r *mon.Rng, wit ma
 		return tlb.Bits256{}, false
 	}
 	if err != nil {
-		R.Inconclusive("tongo rejects a reference-built message: " + mon.Trunc(err.Error(), 80))
+		rejected("message", how, err, wit)
 		return tlb.Bits256{}, false
 	}
 	var h tlb.Bits256
@@ -1946,8 +2101,11 @@ func sectionRareExtIn() {
 		rng := R.Rng("rare", i)
 		// (a) the body reference is an exotic cell of level 0: a library cell, a Merkle proof or a
 		// Merkle update over ordinary cells (contracts do take proofs as message bodies)
-		var lh cell.Hash
-		copy(lh[:], rng.Bytes(32))
+		// the library the cell names exists: a decoder with a library resolver can fetch its content (what the
+		// resolver returns must not show up in the message's hashes: the body of the message is the library cell)
+		libContent := gen.RandomDag(rng, gen.DagOpts{Nodes: rng.Range(1, 4), SmallBits: true})
+		registerLibrary(libContent)
+		lh := libContent.Hash()
 		exoticBodies := []struct {
 			name string
 			c    *cell.Cell
@@ -1964,15 +2122,19 @@ func sectionRareExtIn() {
 			spec := &msgSpec{initMode: 0, bodyRef: true, body: eb.c}
 			genInfo(rng, "ext-in", spec)
 			if c, err := spec.cell(); err == nil {
-				how := []string{"plain", "hasher"}[(i+bi)%2]
-				m, derr, pn := decodeMessage(c, how, true, i%4 >= 2, rng)
-				R.Seen("exotic_body_roots", eb.name)
-				if pn != nil {
-					R.Violation("panic@"+pn.Site+"/decode-message/exotic-body", map[string]any{"panic": pn.Value, "body": eb.name})
-				} else if derr != nil {
-					R.Inconclusive("tongo rejects an external message whose body reference is a " + eb.name)
-				} else {
-					compareMessage(m, c, spec, how, "exotic-body", map[string]any{"case": i, "body": eb.name})
+				for hi, how := range hows4 {
+					if hi >= 2 && (i+bi+hi)%2 == 0 { // plain and hasher always, the two option variants every other time
+						continue
+					}
+					m, derr, pn := decodeMessage(c, how, true, i%4 >= 2, rng)
+					R.Seen("exotic_body_roots", eb.name+" / "+how)
+					if pn != nil {
+						R.Violation("panic@"+pn.Site+"/decode-message/exotic-body", map[string]any{"panic": pn.Value, "body": eb.name, "decoder": how})
+					} else if derr != nil {
+						R.Inconclusive("tongo rejects an external message whose body reference is a " + eb.name)
+					} else {
+						compareMessage(m, c, spec, how, "exotic-body", map[string]any{"case": i, "body": eb.name, "decoder": how})
+					}
 				}
 			}
 		}
@@ -2492,7 +2654,7 @@ func main() {
 		tier = os.Args[1]
 	}
 	R = mon.Start("C16", tier)
-	R.Rule = "each case is one decoded message or transaction whose reported hash (Message.Hash(false), Message.Hash(true), Transaction.Hash, root of Transaction.SourceBoc) is compared with the reference hash of the cell it was decoded from (synthetic: the reference-built source cell; real blocks: a cell of the block with the right constructor tag, account and lt) or of the canonical external-in re-encoding built with ref/cell; equivalence-class pairs differ in exactly one part; external-in destinations are addr_std and addr_var (anycast only for the equality classes); body roots include library, Merkle-proof and Merkle-update cells; the normalised hash is asked again after the decoded body has been read in place and after a built message got another body / destination; one destination variable receives record after record while value copies of it are kept (hash, normalised hash and SourceBoc of every kept copy); transactions also at the root of their cell, re-decoded through one decoder, and with a pruned branch / library / Merkle proof below them (SourceBoc must carry those); transactions of exactly 255/256/257 (thorough also 65535/65536/65537) distinct cells; external-in messages whose body reference is a pruned branch (equality classes only: same for another source/fee, different for another pruned body and for the empty body); one child process decodes distinct cells from 8 goroutines at once; every record is decoded once with tlb.Unmarshal and once with tlb.NewDecoder() (caching hasher) and the two must agree; non-trivial = a hash actually compared; distinct = distinct (decoder, place, shape, reference hash); stability re-reads and plain-vs-hasher agreement count as evaluations only"
+	R.Rule = "each case is one decoded message or transaction whose reported hash (Message.Hash(false), Message.Hash(true), Transaction.Hash, root of Transaction.SourceBoc) is compared with the reference hash of the cell it was decoded from (synthetic: the reference-built source cell; real blocks: a cell of the block with the right constructor tag, account and lt) or of the canonical external-in re-encoding built with ref/cell; equivalence-class pairs differ in exactly one part; external-in destinations are addr_std and addr_var (anycast only for the equality classes); body roots include library, Merkle-proof and Merkle-update cells; the normalised hash is asked again after the decoded body has been read in place and after a built message got another body / destination; one destination variable receives record after record while value copies of it are kept (hash, normalised hash and SourceBoc of every kept copy); transactions also at the root of their cell, re-decoded through one decoder, and with a pruned branch / library / Merkle proof below them (SourceBoc must carry those); every combination of the optional parts of a transaction (in_msg, out_msgs, extra currencies in total_fees, description constructor) - a reference-built record that the decoder refuses is a violation (no hash is reported for it); messages decoded through four decoder variants (Unmarshal, NewDecoder, WithDebug, WithLibraryResolver with a resolver that knows the library a body names); transactions of exactly 255/256/257 (thorough also 65535/65536/65537) distinct cells; external-in messages whose body reference is a pruned branch (equality classes only: same for another source/fee, different for another pruned body and for the empty body); one child process decodes distinct cells from 8 goroutines at once; every record is decoded once with tlb.Unmarshal and once with tlb.NewDecoder() (caching hasher) and the two must agree; non-trivial = a hash actually compared; distinct = distinct (decoder, place, shape, reference hash); stability re-reads and plain-vs-hasher agreement count as evaluations only"
 	R.Assume("reference hasher harness/ref/cell is correct: pinned at start-up by the Merkle proof/update equations in the repository's real data")
 	R.Assume("canonical external-in form is ext_in_msg_info$10 src:addr_none dest import_fee:0, no init, body in a reference (comment in tlb/messages.go; TEP-467); destinations with anycast are not judged (tongo documents that it strips anycast)")
 	R.Assume("a record that tongo fails to decode, or decodes into a different structure than the generator described, is counted as inconclusive here (decoding is C03/C04/C08's subject)")
